@@ -108,7 +108,10 @@ func (ww *WW) CheckCounters(from int) int {
 				}
 				for _, e := range d.Entries[id] {
 					if mb.Sigs[e.B_] != nil && e.Counter >= ks.Counter {
-						W.Book.Violate("C19.counter_behind", fmt.Sprintf("active=%v", mb.Keysets[id].Active), "%s: stored counter of keyset %s is %d but the output of counter %d was signed (after %s)", w, id, ks.Counter, e.Counter, ww.LastOp)
+						// cause: the operation during which that counter was signed without the stored
+						// counter being advanced
+						origin := ww.opAt(mb.Sigs[e.B_].Seq)
+						W.Book.Violate("C19.counter_behind", fmt.Sprintf("active=%v|first-signed-during:%s", mb.Keysets[id].Active, origin), "%s: stored counter of keyset %s is %d but the output of counter %d was signed during [%s] (seen after %s)", w, id, ks.Counter, e.Counter, origin, ww.LastOp)
 						break
 					}
 				}
